@@ -33,7 +33,7 @@ RULE = ("layouts: all 120 orders of {~W, ~C, ~P, ~O, custom} after ~V with ~A at
         "section sizes 0..5 x steering-named items (VERS/WRAP/NULL/DLM) in ~C, ~P or custom sections x engine {numpy, "
         "normal}; every item tagged, every ~O line a unique word, every cell carrying its coordinates, one NULL-probe "
         "column. distinct = distinct (order, ~A position, spelling vector, sizes, steering placement, engine); "
-        "non-trivial = layout with >= 4 sections and >= 1 data row Added later: re-reads into the same object, header-only reads, empty data sections at every position, LAS vocabulary (MNEM/UNIT, STRT, DEPT, ASCII, section letters ...) as ordinary mnemonics first / last in ~C/~P/custom, nine spellings per section title (any word beginning with the section letter, mixed case).")
+        "non-trivial = layout with >= 4 sections and >= 1 data row Added later: re-reads into the same object, header-only reads, empty data sections at every position, LAS vocabulary (MNEM/UNIT, STRT, DEPT, ASCII, section letters ...) as ordinary mnemonics first / last in ~C/~P/custom, nine spellings per section title (any word beginning with the section letter, mixed case). Round 8: ~Well sections that state no NULL while another section holds an item named NULL.")
 ASSUMPTIONS = [
     "VERS 2.0 / WRAP NO / DLM absent in ~Version, NULL -999.25 in ~Well; custom titles start with a letter outside V/W/C/P/O/A; titles with an underscore and two custom sections under one title only occur as the witnesses of two known findings",
     "items are compared with mnemonic_case='preserve'",
